@@ -44,6 +44,10 @@ LEGACY = {
     "Trait(None,int,float)": lambda: T.Trait(None, int, float),
     # single coercing types: "float <- int", "complex <- float, int" are documented as COERCED
     "Trait(1.5)": lambda: T.Trait(1.5), "Trait(float)": lambda: T.Trait(float), "Trait(1j)": lambda: T.Trait(1j),
+    # an adapting Instance whose DEFAULT is an object (made by its factory), alone and as a late alternative
+    "Instance(Foo,(),adapt='default')": lambda: T.Instance(L.Foo, (), adapt="default"),
+    "Either(Str,Instance(Foo,(),adapt='default'))": lambda: T.Either(T.Str, T.Instance(L.Foo, (), adapt="default")),
+    "Either(Instance(Foo,(),adapt='default'),Int)": lambda: T.Either(T.Instance(L.Foo, (), adapt="default"), T.Int),
     "Trait('x',1.5)": lambda: T.Trait("x", 1.5), "Trait(7)": lambda: T.Trait(7), "Trait('s')": lambda: T.Trait("s"),
 }
 
@@ -184,7 +188,9 @@ def run_seq(spec, vals, ctx, report_single=True):
             if k not in cache:
                 cache[k] = Alone(s)
             return cache[k]
-        alts = [alone(s) for s in eval_order(spec, lambda s: alone(s).is_fast())]
+        # (an Instance(adapt="default") alternative needs its own default value and is validated in Python, i.e. with the
+        #  slow group, although the same trait on its own has a compiled validator)
+        alts = [alone(s) for s in eval_order(spec, lambda s: alone(s).is_fast() and not (s[0] == "Instance" and s[3] == "default"))]
         alts_declared = [alone(s) for s in flat_alts(spec)]
     members = [Alone(s) for s in spec[1]] if spec[0] == "Tuple" else None
     sid = L.spec_id(spec)
@@ -215,8 +221,19 @@ def run_seq(spec, vals, ctx, report_single=True):
                 if c[0] == "ok" and any(isinstance(v, t) and type(v) is not t for t in coerce_types(h)):
                     sig = "/coerce-type-subclass"      # root-cause signature of F15
                 problem = ("differential/accept" + sig, "compiled %r, python %r" % (c, p))
+        elif c[0] == "ok" and not same(c, p) and type(c[1]) is type(p[1]) is L.Foo and c[1] is not v and p[1] is not v:
+            ctx.label("fresh-default-objects")          # two default objects made by the same factory: equal for our purposes
         elif c[0] == "ok" and not same(c, p):
             kind = "tuple-subclass" if isinstance(v, tuple) and type(v) is not tuple else "value"
+            if spec[0] == "Legacy" and "adapt='default'" in spec[1] and spec[1].startswith("Either") and type(p[1]) is L.Foo and p[1] is not v:
+                # F57: the Python validator returns the default OF THE INSTANCE ALTERNATIVE, the compiled compound the
+                # default of the compound trait
+                kind = "value/adapt-default-in-compound"
+            if kind == "value" and spec[0] == "Either" and p[1] is None and v is not None and \
+                    any(s_[0] == "Instance" and s_[3] == "default" for s_ in flat_alts(spec)):
+                # F57: the value falls through to an Instance(adapt="default") alternative, whose own default (None here)
+                # the Python validator returns; the compiled compound returns the COMPOUND's default instead
+                kind = "value/adapt-default-in-compound"
             problem = ("differential/%s" % kind, "compiled stores %r (%s), python %r (%s)"
                        % (c[1], type(c[1]).__name__, p[1], type(p[1]).__name__))
         elif p[0] == "TE" and c[0] != "TE":
@@ -286,6 +303,7 @@ def fast_grid():
           ["Either", [["Callable", False], ["Int"]]], ["Either", [["Type", "Foo", False], ["Int"]]],
           ["Either", [["Instance", "Foo", False, None], ["Str"]]],
           ["Either", [["Tuple", [["Int"], ["Int"]]], ["Str"]]],
+          ["Either", [["Str"], ["Instance", "Foo", True, "default"]]], ["Either", [["Instance", "Foo", False, "default"], ["Int"]]],
           ["Either", [["Either", [["Int"], ["Str"]]], ["Float"]]],
           ["Tuple", [["Either", [["Int"], ["Str"]]], ["Float"]]],
           ["Tuple", [["This", False], ["Int"]]], ["Tuple", [["Instance", "Foo", False, None], ["Callable", False]]]]
